@@ -183,7 +183,7 @@ func TestCheck(t *testing.T) {
 	}
 	e.Set("states", states)
 	e.Set("transitions", transitions)
-	e.Set("checker_cmd", cmds)
+	e.Set("checker_cmd", strings.Join(cmds, " ; "))
 	e.Set("defect_models_rejected", []string{"CMapImpl lad-split (LinOK)", "CMapImpl no-doublecheck (SameHandle)", "BufRingImpl unlink-one-early (Refines)"})
 
 	side.Wait()
